@@ -84,9 +84,9 @@ func runClamp(c *core.Ctx, pkgPath string) {
 		ast.Inspect(d.Body, func(n ast.Node) bool {
 			is, ok := n.(*ast.IfStmt)
 			if ok && is.Else == nil && len(is.Body.List) == 0 {
-				if _, _, op, isCmp := flow.Cmp(is.Cond); isCmp && op != token.EQL && op != token.NEQ {
+				if _, _, _, isCmp := flow.Cmp(is.Cond); isCmp {
 					k++
-					c.Violate(f.Name, "clamp #"+itoa(k)+" has a body", is.Pos(), "`if "+exprStr(is.Cond)+" {}` tests a bound and does nothing about it: the clamp that belongs here is gone, so counts or offsets run past their limit")
+					c.Violate(f.Name, "clamp #"+itoa(k)+" has a body", is.Pos(), "`if "+exprStr(is.Cond)+" {}` tests a bound and does nothing about it: the clamp or wrap that belongs here is gone, so a count, offset or cursor runs past its limit")
 				}
 				return true
 			}
